@@ -112,7 +112,7 @@ class G:
             return o + g.msp(True) + g.math(3) + g.msp(True) + c
         if r < 10 and self.depth < 4:
             g = G(self.r, self.depth + 1)
-            hashed = ["#text(red)[1]", "#box(inset: 2pt)[3]", "#strong[4]", "#f(1, 2)", "#f(x)[y][z]", "#(a, b)", "#x.f(1)[c]", "#2", "#[c]"]
+            hashed = ["#text(red)[1]", "#box(inset: 2pt)[3]", "#strong[4]", "#f(1, 2)", "#f(x)[y][z]", "#(a, b)", "#x.f(1)[c]", "#2", "#[c]", "#results.filter(r => r.ok).map(r => r.value).sum()"]
             args = [(self.r.pick(hashed) if self.r.chance(1, 4) else g.math(2)) for _ in range(self.r.below(5))]
             if self.r.chance(1, 3) and len(args) >= 2:
                 # rows of a 2-D argument list: commas inside a row, semicolons between rows
